@@ -363,8 +363,9 @@ def check(fx, rep, tier):
     # the validator and fork_to test for the same type
     for b in fx.fn_bodies():
         if F.strip_generics(b["def"]) == "vm::data::JumpTargets::fork_to":
-            names = [F.callee(c) or "" for c, _ in F.calls(b["hir"]["value"])]
-            rep.oblige(any(JUMPDEST_TY in n and "downcast_ref" in n for n in names), "R08.4", "fork_to-checks-jumpdest", F.loc(b["span"]), "fork_to no longer requires the fork target to be a JUMPDEST")
+            from ..vmmodel import tests_opcode_type
+
+            rep.oblige(tests_opcode_type(fx, b, JUMPDEST_TY), "R08.4", "fork_to-checks-jumpdest", F.loc(b["span"]), "fork_to no longer requires the fork target to be a JUMPDEST")
 
     # the kill request concerns the thread that was current when it was made: it is cleared whenever a thread is retired, on
     # every path (a reset that sits in the right operand of `||`, or under another condition, is skipped when the thread is being
